@@ -222,7 +222,7 @@ class EvolvableResNet(EvolvableModule):
         :rtype: Dict[str, Union[int, None]]
         """
         if numb_new_channels is None:
-            numb_new_channels = np.random.choice([8, 16, 32], 1)[0]
+            numb_new_channels = int(np.random.choice([8, 16, 32], 1)[0])
 
         # HARD LIMIT
         if self.channel_size + numb_new_channels < self.max_channel_size:
@@ -243,7 +243,7 @@ class EvolvableResNet(EvolvableModule):
         :rtype: Dict[str, Union[int, None]]
         """
         if numb_new_channels is None:
-            numb_new_channels = np.random.choice([8, 16, 32], 1)[0]
+            numb_new_channels = int(np.random.choice([8, 16, 32], 1)[0])
 
         # HARD LIMIT
         if self.channel_size - numb_new_channels > self.min_channel_size:
